@@ -258,6 +258,40 @@ def oracle(case, rec):
     rec.tag('decided:%d' % decided)
 
 
+@st.composite
+def refine_cases(draw, tier):
+    c = draw(S.curves(5, 30 if tier == 'quick' else 120,
+                      families=['quant', 'quant', 'plateau', 'steps', 'mono_dec', 'noise', 'pwl_dyadic', 'convex', 'trace'],
+                      scales=False))
+    n = len(c['pts'])
+    return {'family': c['family'], 'pts': c['pts'], 'fit': draw(st.sampled_from(FITS)),
+            'ref': draw(st.sampled_from(['original', 'original', 'adjusted'])),
+            'limit': draw(st.one_of(st.sampled_from([4, 5, 10]), st.integers(4, n + 5)))}
+
+
+def oracle_refine(case, rec):
+    """Termination of the iterative refinement (cheap, so it gets a large budget)."""
+    L = lib.lib()
+    lm = L.lmethod
+    p = lib.pts_of(case)
+    n = len(p)
+    rec.tag('refine:%s/%s' % (case['fit'], case['ref']), 'family:' + case['family'])
+    k = rec.call(2 * n + 16, lm.knee, p, getattr(lm.Fit, case['fit']), getattr(lm.Refinement, case['ref']),
+                 case['limit'], _site='lmethod.knee')
+    if k is FAILED:
+        rec.nontrivial = True
+        return
+    try:
+        ok = 2 <= int(k) <= n - 3
+    except (TypeError, ValueError):
+        ok = False
+    rec.check(ok, 'lmethod.knee:not-an-interior-index', 'returned %r, n=%d' % (k, n))
+    pk = lib.guard.last_peak()
+    its = max(pk.values()) if pk else 0
+    rec.tag('refine-iterations:%s' % ('1-2' if its <= 3 else '3-4' if its <= 5 else '5+'))
+    rec.nontrivial = its >= 4
+
+
 def examples(tier):
     # a noisy curve on which Refinement.original cycled between two knees on the pinned tree
     pts = [[0, 9.1], [1, 7.2], [2, 7.9], [3, 5.1], [4, 5.6], [5, 3.2], [6, 3.9], [7, 2.8], [8, 3.1], [9, 2.7]]
@@ -265,4 +299,5 @@ def examples(tier):
              'ref': 'original', 'limit': lim} for f in FITS for lim in (4, 5, 10)]
 
 
-SUBS = [Sub('detectors', oracle, strategy=cases, budget={'quick': 6400, 'thorough': 64000}, examples=examples)]
+SUBS = [Sub('detectors', oracle, strategy=cases, budget={'quick': 6400, 'thorough': 64000}, examples=examples),
+        Sub('refine', oracle_refine, strategy=refine_cases, budget={'quick': 48000, 'thorough': 640000})]
